@@ -1798,10 +1798,15 @@ export class AnyOfDiscriminatedRuntype extends BaseRuntype {
   }
   private getSchemaVariantRefs(ctx: SchemaContext): Array<{ key: string; ref: string }> {
     const unionHash = this.hash({ seen: emptyDict() });
-    return Object.entries(this.schemaMapping).map(([key, schema]) => ({
-      key,
-      ref: this.ensureSchemaVariantRef(schema, key, unionHash, ctx),
-    }));
+    // different keys can sanitize to the same name part ("a-b" and "a_b"): number the repeats
+    const partCounts = new Map<string, number>();
+    return Object.entries(this.schemaMapping).map(([key, schema]) => {
+      const part = AnyOfDiscriminatedRuntype.sanitizeComponentNamePart(key);
+      const repeats = partCounts.get(part) ?? 0;
+      partCounts.set(part, repeats + 1);
+      const suffix = repeats === 0 ? "" : `_${repeats + 1}_`;
+      return { key, ref: this.ensureSchemaVariantRef(schema, key, suffix, unionHash, ctx) };
+    });
   }
 
   private getPrintingContext(ctx: SchemaContext): SchemaPrintingContext {
@@ -1835,10 +1840,15 @@ export class AnyOfDiscriminatedRuntype extends BaseRuntype {
       .join("");
   }
 
-  private static getSyntheticRefName(discriminator: string, key: string, unionHash: number): string {
+  private static getSyntheticRefName(
+    discriminator: string,
+    key: string,
+    suffix: string,
+    unionHash: number,
+  ): string {
     const discriminatorPart = AnyOfDiscriminatedRuntype.sanitizeComponentNamePart(discriminator);
     const keyPart = AnyOfDiscriminatedRuntype.sanitizeComponentNamePart(key);
-    return `Discriminated${discriminatorPart}${keyPart}${Math.abs(unionHash)}`;
+    return `Discriminated${discriminatorPart}${keyPart}${suffix}${Math.abs(unionHash)}`;
   }
 
   private ensureContextualDefinition(name: string, target: Runtype, ctx: SchemaContext): void {
@@ -1860,6 +1870,7 @@ export class AnyOfDiscriminatedRuntype extends BaseRuntype {
   private ensureSchemaVariantRef(
     runtype: Runtype,
     key: string,
+    suffix: string,
     unionHash: number,
     ctx: SchemaContext,
   ): string {
@@ -1873,6 +1884,7 @@ export class AnyOfDiscriminatedRuntype extends BaseRuntype {
     const syntheticRefName = AnyOfDiscriminatedRuntype.getSyntheticRefName(
       this.discriminator,
       key,
+      suffix,
       unionHash,
     );
     this.ensureContextualDefinition(syntheticRefName, runtype, ctx);
